@@ -76,15 +76,16 @@ __CPROVER_assigns(GHOST, self->thread_heap_small_, self->thread_heap_medium_, se
 //@LIFT recycle_thread
 
 static struct thread_data *g_victim; /* an arbitrary object that recycle_thread (lifted, run by the harness) put on a free list */
+static ptrdiff_t g_victim_size;      /* its stack size (ghost copy: contracts avoid dereferencing ghost pointers) */
 //@FUNC
 void create_thread_object(struct thread_queue *self, struct thread_data **thrd, struct thread_init_data *data, struct lock *lk)
 #ifdef U_CREATE
 __CPROVER_requires(lk->owns && g_pops == 0 && g_rebinds == 0 && g_creates == 0 && IS_CONFIGURED(self, g_requested))
-__CPROVER_requires(g_pushes == 1 && g_pushed_obj == g_victim && IS_HEAP_OF(self, g_pushed_heap) && g_pushed_heap->top == g_victim)
+__CPROVER_requires(g_pushes == 1 && g_pushed_obj == g_victim && IS_HEAP_OF(self, g_pushed_heap))
 /* same heap for the same stack size */
-__CPROVER_ensures(g_victim->stacksize_ == g_requested ==> g_consulted_heap == g_pushed_heap)
+__CPROVER_ensures(g_victim_size == g_requested ==> g_consulted_heap == g_pushed_heap)
 /* whatever comes off a free list has the stack size that was asked for (the property) -- decided for the victim */
-__CPROVER_ensures((g_rebinds >= 1 && g_reused == g_victim) ==> g_victim->stacksize_ == g_requested)
+__CPROVER_ensures((g_rebinds >= 1 && g_reused == g_victim) ==> g_victim_size == g_requested)
 /* exactly one object is handed out: a rebound one -- removed from its free list, so never handed out twice -- or a new
  * one of the requested size */
 __CPROVER_ensures(g_rebinds + g_creates == 1 && g_pops == g_rebinds)
@@ -112,7 +113,7 @@ void harness(void)
   q.thread_heap_large_.top = nondet_bool() ? &other : NULL; q.thread_heap_huge_.top = nondet_bool() ? &other : NULL;
   q.thread_heap_nostack_.top = nondet_bool() ? &other : NULL;
   victim.stacksize_ = nondet_ptrdiff(); victim.is_stackless_ = nondet_bool();
-  g_victim = &victim;
+  g_victim = &victim; g_victim_size = victim.stacksize_;
 #ifdef U_RECYCLE
   recycle_thread(&q, &victim);
   VX_REACH("recycled");
